@@ -19,6 +19,9 @@ VALUES = [['red'], ['1px', 'solid', '#000'], ['"a;b}"'], ["'x\\'y'"], ['calc(1px
           ['(small: (min: 0, max: 599px), large: 600px)'], ['(bg: darken($c, 10%), border: $c)'], ['f(g(a:b), c:d)'], ['((a:b):c)'], ['map-get((k: (x: 1)), k)', 'x:y'.replace(':', '-')], ['1px', '2px', '3px', '4px', '5em', '6%', 'auto', 'inherit', '0'], ['a', 'b', 'c', '/', 'd', 'e', 'f', 'g']]
 # a colon OUTSIDE parentheses and strings inside a value (custom properties, the legacy `progid:` filters): the FIRST colon of a declaration delimits
 VALUES += [['"a\\\nb;}"'], ['"a\\\r\nb;}"', 'x'], ["'p\\\r\n{q'"]]        # a backslash before a line break (LF or CRLF) continues the string on the next line
+# long strings continued over a line break (legal CSS; 25+ ordinary characters before the escape: the length at which a pattern with a nested quantifier stalls)
+VALUES += [['"Hover the icon to see what {this; option} does, \\\nthen click it"'], ["'Lorem ipsum dolor sit amet, consectetur adipisicing \\\r\nelit; sed }'", 'x'],
+           ['"aaaaaaaaaaaaaaaaaaaaaaaaaaaaaaaaaaaaaaaaaa\\\n"']]
 VALUES += [['url(//cdn.x/y.png)', 'no-repeat'], ['image-set(url(//a.b/c) 1x)']]       # (two slashes inside parentheses are a protocol-relative URL, not a line comment)
 VALUES += [['a:b'], ['progid:DXImageTransform.Microsoft.gradient(startColorstr=#80000000)'], ['c', 'd:e', 'f'], ['1:2:3'], ['x', ':', 'y']]
 VALUES_WITH_COMMENT = [['x', '/* v */', 'y'], ['1px', '/* ; } */', 'solid'], ['f(a:/* ; } */b)'], ['(k:/* { */ v)', 'w']]
